@@ -9,25 +9,25 @@ use std::collections::{HashMap, HashSet};
 use syn::spanned::Spanned;
 use syn::visit::Visit;
 
-const C: &str = "cfg(feature=\"compact\")";
-const NC: &str = "cfg(not(feature=\"compact\"))";
-const NIGHTLY: &str = "cfg(feature=\"nightly\")";
-const VERIF: &str = "cfg(feature=\"verif\")";
-const ALLOC: &str = "cfg(feature=\"alloc\")";
-const NALLOC: &str = "cfg(not(feature=\"alloc\"))";
-const L64: &str = "cfg(all(target_pointer_width=\"64\",not(target_arch=\"sparc\")))";
-const NL64: &str = "cfg(not(all(target_pointer_width=\"64\",not(target_arch=\"sparc\"))))";
-const CFGATTR_INLINE: &str = "cfg_attr(not(feature=\"compact\"),inline)";
+const C: &str = "cfg (feature = \"compact\")";
+const NC: &str = "cfg (not (feature = \"compact\"))";
+const NIGHTLY: &str = "cfg (feature = \"nightly\")";
+const VERIF: &str = "cfg (feature = \"verif\")";
+const ALLOC: &str = "cfg (feature = \"alloc\")";
+const NALLOC: &str = "cfg (not (feature = \"alloc\"))";
+const L64: &str = "cfg (all (target_pointer_width = \"64\" , not (target_arch = \"sparc\")))";
+const NL64: &str = "cfg (not (all (target_pointer_width = \"64\" , not (target_arch = \"sparc\"))))";
+const CFGATTR_INLINE: &str = "cfg_attr (not (feature = \"compact\") , inline)";
 
 /// the `cfg` / `cfg_attr` attributes present in the source today: (file, where, attribute).
 /// Statement forms of rules 12 / 21 are accepted separately (see `approve_stmt`).
 const CFG_WHITELIST: &[(&str, &str, &str)] = &[
-    ("num.rs", "use:crate::libm::{powd,powf}", "cfg(all(not(feature=\"std\"),feature=\"compact\"))"),
-    ("num.rs", "use:crate::table::{SMALL_F32_POW10,SMALL_F64_POW10,SMALL_INT_POW10,SMALL_INT_POW5}", NC),
-    ("num.rs", "fn:powf", "cfg(all(feature=\"std\",feature=\"compact\"))"),
-    ("num.rs", "fn:powd", "cfg(all(feature=\"std\",feature=\"compact\"))"),
+    ("num.rs", "use:crate :: libm :: { powd , powf }", "cfg (all (not (feature = \"std\") , feature = \"compact\"))"),
+    ("num.rs", "use:crate :: table :: { SMALL_F32_POW10 , SMALL_F64_POW10 , SMALL_INT_POW10 , SMALL_INT_POW5 }", NC),
+    ("num.rs", "fn:powf", "cfg (all (feature = \"std\" , feature = \"compact\"))"),
+    ("num.rs", "fn:powd", "cfg (all (feature = \"std\" , feature = \"compact\"))"),
     ("num.rs", "fn:verif_int_pow_fast_path", VERIF),
-    ("number.rs", "use:crate::fpu::set_precision", NIGHTLY),
+    ("number.rs", "use:crate :: fpu :: set_precision", NIGHTLY),
     ("lemire.rs", "file", NC),
     ("lemire.rs", "fn:verif_compute_product_approx", VERIF),
     ("lemire.rs", "fn:verif_power", VERIF),
@@ -37,9 +37,9 @@ const CFG_WHITELIST: &[(&str, &str, &str)] = &[
     ("table_small.rs", "file", NC),
     ("table_small.rs", "const:LARGE_POW5", L64),
     ("table_small.rs", "const:LARGE_POW5", NL64),
-    ("bigint.rs", "use:crate::heapvec::HeapVec", ALLOC),
-    ("bigint.rs", "use:crate::stackvec::StackVec", NALLOC),
-    ("bigint.rs", "use:crate::table::{LARGE_POW5,LARGE_POW5_STEP}", NC),
+    ("bigint.rs", "use:crate :: heapvec :: HeapVec", ALLOC),
+    ("bigint.rs", "use:crate :: stackvec :: StackVec", NALLOC),
+    ("bigint.rs", "use:crate :: table :: { LARGE_POW5 , LARGE_POW5_STEP }", NC),
     ("bigint.rs", "type:VecType", ALLOC),
     ("bigint.rs", "type:VecType", NALLOC),
     ("bigint.rs", "type:Limb", L64),
@@ -50,24 +50,24 @@ const CFG_WHITELIST: &[(&str, &str, &str)] = &[
     ("bigint.rs", "const:LIMB_BITS", NL64),
     ("stackvec.rs", "file", NALLOC),
     ("heapvec.rs", "file", ALLOC),
-    ("heapvec.rs", "use:alloc::vec::Vec", "cfg(not(feature=\"std\"))"),
-    ("heapvec.rs", "use:std::vec::Vec", "cfg(feature=\"std\")"),
-    ("parse.rs", "use:crate::bellerophon::bellerophon", C),
-    ("parse.rs", "use:crate::lemire::lemire", NC),
+    ("heapvec.rs", "use:alloc :: vec :: Vec", "cfg (not (feature = \"std\"))"),
+    ("heapvec.rs", "use:std :: vec :: Vec", "cfg (feature = \"std\")"),
+    ("parse.rs", "use:crate :: bellerophon :: bellerophon", C),
+    ("parse.rs", "use:crate :: lemire :: lemire", NC),
     ("parse.rs", "fn:verif_parse_number", VERIF),
-    ("table.rs", "use:crate::table_bellerophon::*", C),
-    ("table.rs", "use:crate::table_lemire::*", NC),
-    ("table.rs", "use:crate::table_small::*", NC),
-    ("lib.rs", "file", "cfg_attr(feature=\"lint\",warn(unsafe_op_in_unsafe_fn))"),
-    ("lib.rs", "file", "cfg_attr(not(feature=\"std\"),no_std)"),
-    ("lib.rs", "extern:alloc", "cfg(all(feature=\"alloc\",not(feature=\"std\")))"),
+    ("table.rs", "use:crate :: table_bellerophon :: *", C),
+    ("table.rs", "use:crate :: table_lemire :: *", NC),
+    ("table.rs", "use:crate :: table_small :: *", NC),
+    ("lib.rs", "file", "cfg_attr (feature = \"lint\" , warn (unsafe_op_in_unsafe_fn))"),
+    ("lib.rs", "file", "cfg_attr (not (feature = \"std\") , no_std)"),
+    ("lib.rs", "extern:alloc", "cfg (all (feature = \"alloc\" , not (feature = \"std\")))"),
     ("rounding.rs", "fn:round", CFGATTR_INLINE),
     ("rounding.rs", "fn:round_nearest_tie_even", CFGATTR_INLINE),
     ("rounding.rs", "fn:round_down", CFGATTR_INLINE),
 ];
 
 /// the statements dropped by rule 12, as they are today: (file, function, token text)
-const NIGHTLY_STMTS: &[(&str, &str, &str)] = &[("number.rs", "try_fast_path", "#[cfg(feature=\"nightly\")]let_cw=set_precision::<F>();")];
+const NIGHTLY_STMTS: &[(&str, &str, &str)] = &[("number.rs", "try_fast_path", "# [cfg (feature = \"nightly\")] let _cw = set_precision :: < F > () ;")];
 
 /// the imports present today: (file, path).  Every `use` leaf must be one of these: an import can
 /// change what a name means (C-USE), and a trait import can change what a method call means.
@@ -164,12 +164,12 @@ const HARMLESS_ATTRS: &[&str] = &["doc", "inline", "derive", "must_use", "test",
 /// change of meaning: the clippy lints and `unused_unsafe` (NOT `overflowing_literals`,
 /// `non_upper_case_globals`, `arithmetic_overflow`, ..)
 fn lint_attr_ok(a: &syn::Attribute) -> bool {
-    let t = attr_text(a);
-    let inner = match t.split_once('(') {
-        Some((_, r)) => r.trim_end_matches(')').to_string(),
-        None => return false,
+    let lints = match a.parse_args_with(syn::punctuated::Punctuated::<syn::Path, syn::Token![,]>::parse_terminated) {
+        Ok(l) => l,
+        Err(_) => return false,
     };
-    !inner.is_empty() && inner.split(',').all(|l| l.starts_with("clippy::") || l == "unused_unsafe")
+    !lints.is_empty()
+        && lints.iter().all(|l| l.is_ident("unused_unsafe") || (l.leading_colon.is_none() && l.segments.len() == 2 && l.segments[0].ident == "clippy"))
 }
 
 /// the global constants that the translator resolves by name (rules 9, 14, 21): no parameter,
@@ -193,24 +193,24 @@ const MACROS: &[(&str, &str)] = &[
 /// through (`DerefMut` behind `as_mut_ptr()`, `x[i] = e`, `iter_mut()`, `get_mut()`; `PartialEq`,
 /// `PartialOrd`, `Ord`, `MulAssign`): their bodies must be, token for token, today's (check C-PIN)
 const PINNED: &[(&str, &str, &str, &str)] = &[
-    ("stackvec.rs", "ops::Deref", "deref", "{unsafe{letptr=self.data.as_ptr()as*constbigint::Limb;slice::from_raw_parts(ptr,self.len())}}"),
-    ("stackvec.rs", "ops::DerefMut", "deref_mut", "{unsafe{letptr=self.data.as_mut_ptr()as*mutbigint::Limb;slice::from_raw_parts_mut(ptr,self.len())}}"),
-    ("stackvec.rs", "PartialEq", "eq", "{usecore::ops::Deref;self.len()==other.len()&&self.deref()==other.deref()}"),
-    ("stackvec.rs", "cmp::PartialOrd", "partial_cmp", "{Some(bigint::compare(self,other))}"),
-    ("stackvec.rs", "cmp::Ord", "cmp", "{bigint::compare(self,other)}"),
-    ("stackvec.rs", "ops::MulAssign<&[bigint::Limb]>", "mul_assign", "{bigint::large_mul(self,rhs).unwrap();}"),
-    ("heapvec.rs", "ops::Deref", "deref", "{&self.data}"),
-    ("heapvec.rs", "ops::DerefMut", "deref_mut", "{&mutself.data}"),
-    ("heapvec.rs", "PartialEq", "eq", "{usecore::ops::Deref;self.len()==other.len()&&self.deref()==other.deref()}"),
-    ("heapvec.rs", "cmp::PartialOrd", "partial_cmp", "{Some(bigint::compare(self,other))}"),
-    ("heapvec.rs", "cmp::Ord", "cmp", "{bigint::compare(self,other)}"),
-    ("heapvec.rs", "ops::MulAssign<&[bigint::Limb]>", "mul_assign", "{bigint::large_mul(self,rhs).unwrap();}"),
-    ("bigint.rs", "ops::MulAssign<&Bigint>", "mul_assign", "{self.data*=&rhs.data;}"),
+    ("stackvec.rs", "ops::Deref", "deref", "{ unsafe { let ptr = self.data.as_ptr() as *const bigint::Limb; slice::from_raw_parts(ptr, self.len()) } }"),
+    ("stackvec.rs", "ops::DerefMut", "deref_mut", "{ unsafe { let ptr = self.data.as_mut_ptr() as *mut bigint::Limb; slice::from_raw_parts_mut(ptr, self.len()) } }"),
+    ("stackvec.rs", "PartialEq", "eq", "{ use core::ops::Deref; self.len() == other.len() && self.deref() == other.deref() }"),
+    ("stackvec.rs", "cmp::PartialOrd", "partial_cmp", "{ Some(bigint::compare(self, other)) }"),
+    ("stackvec.rs", "cmp::Ord", "cmp", "{ bigint::compare(self, other) }"),
+    ("stackvec.rs", "ops::MulAssign<&[bigint::Limb]>", "mul_assign", "{ bigint::large_mul(self, rhs).unwrap(); }"),
+    ("heapvec.rs", "ops::Deref", "deref", "{ &self.data }"),
+    ("heapvec.rs", "ops::DerefMut", "deref_mut", "{ &mut self.data }"),
+    ("heapvec.rs", "PartialEq", "eq", "{ use core::ops::Deref; self.len() == other.len() && self.deref() == other.deref() }"),
+    ("heapvec.rs", "cmp::PartialOrd", "partial_cmp", "{ Some(bigint::compare(self, other)) }"),
+    ("heapvec.rs", "cmp::Ord", "cmp", "{ bigint::compare(self, other) }"),
+    ("heapvec.rs", "ops::MulAssign<&[bigint::Limb]>", "mul_assign", "{ bigint::large_mul(self, rhs).unwrap(); }"),
+    ("bigint.rs", "ops::MulAssign<&Bigint>", "mul_assign", "{ self.data *= &rhs.data; }"),
 ];
 
 /// `deref_mut` must be `deref` up to mutability (check C-PIN)
 fn deref_mut_as_deref(t: &str) -> String {
-    t.replace("as_mut_ptr", "as_ptr").replace("*mut", "*const").replace("from_raw_parts_mut", "from_raw_parts").replace("&mutself.data", "&self.data")
+    t.replace("as_mut_ptr", "as_ptr").replace("* mut", "* const").replace("from_raw_parts_mut", "from_raw_parts").replace("& mut self . data", "& self . data")
 }
 
 /// the `impl` blocks present today: (file, trait ("" = inherent), self type, the functions it may
@@ -227,8 +227,8 @@ const FLOAT_CONSTS: &[&str] = &[
 fn impl_other_items(tr: &str, ty: &str) -> &'static [&'static str] {
     match (tr, ty) {
         ("Float", "f32") | ("Float", "f64") => FLOAT_CONSTS,
-        ("ops::Index<usize>", "ReverseView<'a,T>") => &["Output"],
-        ("ops::Deref", "StackVec") | ("ops::Deref", "HeapVec") => &["Target"],
+        ("ops :: Index < usize >", "ReverseView < 'a , T >") => &["Output"],
+        ("ops :: Deref", "StackVec") | ("ops :: Deref", "HeapVec") => &["Target"],
         _ => &[],
     }
 }
@@ -280,9 +280,79 @@ const IMPLS: &[(&str, &str, &str, &[&str])] = &[
 /// names of the std prelude / language that the translator gives a fixed meaning: no item, import
 /// or macro of a source file may be called like this
 const RESERVED: &[&str] = &[
-    "Some", "None", "Ok", "Err", "Option", "Result", "debug_assert", "core", "std", "Iterator", "Clone", "Fn", "Self", "u8", "u16", "u32",
+    "Some", "None", "Ok", "Err", "Option", "Result", "debug_assert", "core", "std", "alloc", "Iterator", "Clone", "Fn", "Self", "u8", "u16", "u32",
     "u64", "u128", "usize", "i8", "i16", "i32", "i64", "i128", "isize", "bool", "char", "f32", "f64", "str",
+    // the other traits / types of the std prelude: the whitelisted `impl Eq for HeapVec`, `derive(..)`,
+    // `impl From<..>` mention them by their bare name
+    "Eq", "PartialEq", "Ord", "PartialOrd", "Copy", "Default", "Debug", "Hash", "From", "Into", "TryFrom", "TryInto", "FromIterator",
+    "IntoIterator", "DoubleEndedIterator", "ExactSizeIterator", "Extend", "Drop", "FnMut", "FnOnce", "Send", "Sync", "Sized", "Unpin",
+    "ToOwned", "ToString", "AsRef", "AsMut", "Vec", "Box", "String", "drop",
 ];
+
+/// the macros of the std prelude (macros have their own namespace: no `macro_rules!` may be called
+/// like one of them)
+const RESERVED_MACROS: &[&str] = &[
+    "debug_assert", "debug_assert_eq", "debug_assert_ne", "assert", "assert_eq", "assert_ne", "panic", "unreachable", "unimplemented", "todo",
+    "matches", "write", "writeln", "print", "println", "eprint", "eprintln", "format", "format_args", "vec", "cfg", "env", "option_env", "concat",
+    "stringify", "include", "include_str", "include_bytes", "line", "column", "file", "module_path", "compile_error", "dbg", "try",
+    "thread_local", "asm", "global_asm", "derive", "test", "macro_rules",
+];
+
+/// C-MACROTOK: the arguments of a macro invocation are token trees that the syn visitor does not look
+/// into, and an item is global wherever it is written (`matches!(x, 0 if { impl T { .. } true })`): the
+/// words that start an item (or pull in another file / assembly) may not occur in them
+const MACRO_FORBIDDEN: &[&str] = &[
+    "impl", "trait", "macro_rules", "mod", "use", "extern", "static", "const", "fn", "type", "struct", "enum", "union", "include", "include_str",
+    "include_bytes", "asm", "global_asm",
+];
+
+/// the forbidden words / raw identifiers among the tokens of a macro invocation (`defn`: the body of a
+/// `macro_rules!` definition, where `$name` / `$name:fragment` are metavariables, not words)
+pub fn scan_macro_tokens(ts: proc_macro2::TokenStream, defn: bool, out: &mut Vec<String>) {
+    let mut after_dollar = false;
+    for t in ts {
+        match t {
+            proc_macro2::TokenTree::Ident(i) => {
+                let n = i.to_string();
+                if n.starts_with("r#") {
+                    out.push(format!("raw identifier `{}` among the tokens of a macro", n));
+                } else if MACRO_FORBIDDEN.contains(&n.as_str()) && !(defn && after_dollar) {
+                    out.push(format!("`{}` among the tokens of a macro (an item there is global, and the pre-pass does not see it)", n));
+                }
+                after_dollar = false;
+            }
+            proc_macro2::TokenTree::Group(g) => {
+                scan_macro_tokens(g.stream(), defn, out);
+                after_dollar = false;
+            }
+            proc_macro2::TokenTree::Punct(p) => after_dollar = p.as_char() == '$',
+            proc_macro2::TokenTree::Literal(_) => after_dollar = false,
+        }
+    }
+}
+
+/// the last segment of a macro's path
+fn macro_name(m: &syn::Macro) -> String {
+    m.path.segments.last().map(|s| s.ident.to_string()).unwrap_or_default()
+}
+
+/// the attributes (doc comments excepted) of the structs that the translation maps to fixed Coq
+/// types, as they are today: `derive(PartialEq)` is the `==` of rule 9, `derive(Default)` is rule 14's
+/// `Number::default()`, and a derive list names prelude traits (C-DERIVE)
+const STRUCT_ATTRS: &[(&str, &str, &[&str])] = &[
+    ("stackvec.rs", "StackVec", &["derive(Clone)"]),
+    ("heapvec.rs", "HeapVec", &["derive(Clone)"]),
+    ("bigint.rs", "Bigint", &["derive(Clone, PartialEq, Eq)"]),
+    ("bigint.rs", "ReverseView", &[]),
+    ("number.rs", "Number", &["derive(Clone, Copy, Debug, Default, PartialEq, Eq)"]),
+    ("extended_float.rs", "ExtendedFloat", &["derive(Clone, Copy, Debug, PartialEq, Eq)"]),
+    ("bellerophon.rs", "BellerophonPowers", &[]),
+];
+
+/// attributes accepted outside the target functions of a lenient file (test drivers, serde structs):
+/// everything else (`no_mangle`, `link_section`, `used`, `export_name`, `global_allocator`, `link`, ..)
+/// goes through the strict whitelist, i.e. is refused
+const LENIENT_ATTRS: &[&str] = &["doc", "inline", "allow", "warn", "deny", "derive", "macro_use", "serde", "test", "must_use", "cold"];
 
 /// What the names with a fixed meaning are, for one family of files (the library / one front-end).
 pub struct Known {
@@ -323,12 +393,31 @@ impl Known {
     }
 }
 
-fn nospace(s: &str) -> String {
-    s.chars().filter(|c| !c.is_whitespace()).collect()
+/// the text of a piece of syntax for every comparison with a table: the tokens as `quote!` prints
+/// them, separated by single spaces, literals verbatim (white space INSIDE a string literal is kept:
+/// `feature = "comp act"` is not `feature = "compact"`)
+pub fn text<T: ToTokens>(t: &T) -> String {
+    t.to_token_stream().to_string()
+}
+
+/// a table entry written as ordinary Rust, in the same form: parsed and printed like the source
+pub fn canon<T: syn::parse::Parse + ToTokens>(s: &str) -> String {
+    match syn::parse_str::<T>(s) {
+        Ok(t) => text(&t),
+        Err(_) => String::from("<unparsable table entry>"),
+    }
+}
+
+fn canon_trait(s: &str) -> String {
+    if s.is_empty() {
+        String::new()
+    } else {
+        canon::<syn::Path>(s)
+    }
 }
 
 fn attr_text(a: &syn::Attribute) -> String {
-    nospace(&a.meta.to_token_stream().to_string())
+    text(&a.meta)
 }
 
 fn attr_name(a: &syn::Attribute) -> String {
@@ -382,6 +471,48 @@ struct Pre<'a> {
     /// the enclosing functions (innermost last): name, identifiers of the body with their positions
     fns: Vec<(String, Vec<(String, (usize, usize))>)>,
     local_consts: Vec<Vec<String>>,
+    /// lenient files: the structs / enums / unions the file defines, and the names of the methods /
+    /// functions that the target functions call
+    local_types: HashSet<String>,
+    target_calls: HashSet<String>,
+}
+
+/// the names a function body calls: methods, the last segment of called paths, and (macro arguments
+/// are token trees) every identifier inside a macro invocation
+struct Calls(HashSet<String>);
+
+impl<'ast> Visit<'ast> for Calls {
+    fn visit_expr_method_call(&mut self, m: &'ast syn::ExprMethodCall) {
+        self.0.insert(m.method.to_string());
+        syn::visit::visit_expr_method_call(self, m);
+    }
+    fn visit_expr_path(&mut self, p: &'ast syn::ExprPath) {
+        if let Some(s) = p.path.segments.last() {
+            self.0.insert(s.ident.to_string());
+        }
+        syn::visit::visit_expr_path(self, p);
+    }
+    fn visit_macro(&mut self, m: &'ast syn::Macro) {
+        let mut ids = vec![];
+        idents_with_pos(m.tokens.clone(), &mut ids);
+        for (i, _) in ids {
+            self.0.insert(i);
+        }
+    }
+}
+
+struct LocalTypes(HashSet<String>);
+
+impl<'ast> Visit<'ast> for LocalTypes {
+    fn visit_item_struct(&mut self, s: &'ast syn::ItemStruct) {
+        self.0.insert(s.ident.to_string());
+    }
+    fn visit_item_enum(&mut self, s: &'ast syn::ItemEnum) {
+        self.0.insert(s.ident.to_string());
+    }
+    fn visit_item_union(&mut self, s: &'ast syn::ItemUnion) {
+        self.0.insert(s.ident.to_string());
+    }
 }
 
 fn idents_with_pos(ts: proc_macro2::TokenStream, out: &mut Vec<(String, (usize, usize))>) {
@@ -447,7 +578,7 @@ impl<'a> Pre<'a> {
                 let t = attr_text(a);
                 let ok = if kind == "let" {
                     let cur = self.fns.last().map(|(n, _)| n.as_str()).unwrap_or("");
-                    let text = nospace(&st.to_token_stream().to_string());
+                    let text = text(&st);
                     t == NIGHTLY && NIGHTLY_STMTS.iter().any(|(f, func, x)| *f == self.fname && *func == cur && *x == text)
                 } else {
                     t == C || t == NC
@@ -509,10 +640,7 @@ impl<'a> Pre<'a> {
                     if n == "_" {
                         continue;
                     }
-                    if RESERVED.contains(&n.as_str()) {
-                        self.problem(u.span(), format!("import `{}` redefines a name with a fixed meaning", path));
-                        continue;
-                    }
+                    // (the import is one of today's, path by path: `std::vec::Vec` may bring in `Vec`)
                     if self.known.home.contains_key(n) {
                         let ok = self.known.import_paths.get(n).map(|ps| ps.iter().any(|p| *p == path)).unwrap_or(false);
                         if !ok {
@@ -526,16 +654,40 @@ impl<'a> Pre<'a> {
 
     fn check_impl(&mut self, im: &syn::ItemImpl) {
         if self.lenient.is_some() {
-            // the targets only call inherent methods of primitive / std types and each other: a
-            // local impl cannot change those
+            // method probing tries by-value candidates (inherent, then trait) before autoref, so a
+            // local trait impl for `Option<u32>` with `fn is_some(self)` beats the inherent
+            // `Option::is_some(&self)`: impl blocks only for the structs / enums of this file, and
+            // none of their functions may be called like something the targets call
+            let local = match &*im.self_ty {
+                syn::Type::Path(p) if p.qself.is_none() && p.path.leading_colon.is_none() && p.path.segments.len() == 1 => {
+                    let n = p.path.segments[0].ident.to_string();
+                    self.local_types.contains(&n) && !RESERVED.contains(&n.as_str()) && !im.generics.params.iter().any(|g| matches!(g, syn::GenericParam::Type(t) if t.ident == n))
+                }
+                _ => false,
+            };
+            if !local {
+                self.problem(im.span(), format!("`impl` block for `{}`, which is not a struct / enum defined in this file (it could change what a method call of the translated functions means)", text(&im.self_ty)));
+            }
+            for ii in &im.items {
+                match ii {
+                    syn::ImplItem::Fn(f) => {
+                        let n = f.sig.ident.to_string();
+                        if self.target_calls.contains(&n) {
+                            self.problem(f.span(), format!("the impl function `{}` is called like a method / function that the translated functions call", n));
+                        }
+                    }
+                    syn::ImplItem::Macro(m) => self.problem(m.span(), "macro in impl-item position".into()),
+                    _ => {}
+                }
+            }
             return;
         }
         let tr = match &im.trait_ {
             None => String::new(),
-            Some((bang, p, _)) => format!("{}{}", if bang.is_some() { "!" } else { "" }, nospace(&p.to_token_stream().to_string())),
+            Some((bang, p, _)) => format!("{}{}", if bang.is_some() { "!" } else { "" }, text(&p)),
         };
-        let ty = nospace(&im.self_ty.to_token_stream().to_string());
-        let entry = IMPLS.iter().find(|(f, t, s, _)| *f == self.fname && *t == tr && *s == ty);
+        let ty = text(&im.self_ty);
+        let entry = IMPLS.iter().find(|(f, t, s, _)| *f == self.fname && canon_trait(t) == tr && canon::<syn::Type>(s) == ty);
         match entry {
             None => self.problem(
                 im.span(),
@@ -554,13 +706,13 @@ impl<'a> Pre<'a> {
                                 );
                             }
                             // C-PIN: untranslated functions that translated code runs through
-                            if let Some((_, _, _, want)) = PINNED.iter().find(|(f2, t2, n2, _)| *f2 == self.fname && *t2 == tr && *n2 == n) {
-                                let got = nospace(&f.block.to_token_stream().to_string());
-                                if got != *want {
+                            if let Some((_, _, _, want)) = PINNED.iter().find(|(f2, t2, n2, _)| *f2 == self.fname && canon_trait(t2) == tr && *n2 == n) {
+                                let got = text(&f.block);
+                                if got != canon::<syn::Block>(want) {
                                     self.problem(f.span(), format!("the body of `{}` (not translated, but translated code runs through it) is no longer today's `{}`", n, want));
                                 }
                                 if n == "deref_mut" {
-                                    let d = PINNED.iter().find(|(f2, _, n2, _)| *f2 == self.fname && *n2 == "deref").map(|x| x.3).unwrap_or("");
+                                    let d = PINNED.iter().find(|(f2, _, n2, _)| *f2 == self.fname && *n2 == "deref").map(|x| canon::<syn::Block>(x.3)).unwrap_or_default();
                                     if deref_mut_as_deref(&got) != d {
                                         self.problem(f.span(), "`deref_mut` is not `deref` up to mutability".into());
                                     }
@@ -576,7 +728,7 @@ impl<'a> Pre<'a> {
                 }
                 // every pinned function of this impl must still be there
                 for (f2, t2, n2, _) in PINNED.iter() {
-                    if *f2 == self.fname && *t2 == tr && !im.items.iter().any(|ii| matches!(ii, syn::ImplItem::Fn(f) if f.sig.ident == n2)) {
+                    if *f2 == self.fname && canon_trait(t2) == tr && !im.items.iter().any(|ii| matches!(ii, syn::ImplItem::Fn(f) if f.sig.ident == n2)) {
                         self.problem(im.span(), format!("`{}` is missing from `impl {} for {}`", n2, tr, ty));
                     }
                 }
@@ -590,7 +742,7 @@ impl<'a, 'ast> Visit<'ast> for Pre<'a> {
         let n = attr_name(a);
         // lenient files: outside the target functions only attributes that can hide or duplicate
         // a definition matter
-        if !self.strict_here() && !matches!(n.as_str(), "cfg" | "cfg_attr" | "path") {
+        if !self.strict_here() && LENIENT_ATTRS.contains(&n.as_str()) {
             return;
         }
         if HARMLESS_ATTRS.contains(&n.as_str()) || n.starts_with("rustfmt::") {
@@ -610,7 +762,7 @@ impl<'a, 'ast> Visit<'ast> for Pre<'a> {
         let in_fn = !self.fns.is_empty();
         match it {
             I::Use(u) => {
-                let ctx = format!("use:{}", nospace(&u.tree.to_token_stream().to_string()));
+                let ctx = format!("use:{}", text(&u.tree));
                 self.approve(&u.attrs, &ctx);
                 // (a `use` inside a function body is held to the same whitelist)
                 self.check_use(u);
@@ -656,8 +808,9 @@ impl<'a, 'ast> Visit<'ast> for Pre<'a> {
                 if c.ident.to_string().chars().any(|ch| ch.is_lowercase()) {
                     self.problem(c.ident.span(), format!("static `{}` is not an upper-case name", c.ident));
                 }
-                if in_fn {
-                    self.problem(c.span(), "`static` inside a function body".into());
+                // (`#[used] #[link_section = ".init_array"] static ..` runs code before main)
+                if !(self.fname == "table_lemire.rs" && c.ident == "POWER_OF_FIVE_128" && !in_fn) {
+                    self.problem(c.span(), format!("`static {}`: the only static today is the table POWER_OF_FIVE_128", c.ident));
                 }
             }
             I::Type(t) => {
@@ -689,6 +842,11 @@ impl<'a, 'ast> Visit<'ast> for Pre<'a> {
                 }
                 self.approve(&s.attrs, &format!("trait:{}", s.ident));
                 self.defines(s.ident.span(), &s.ident.to_string(), "trait");
+                if self.fname.starts_with("front_") {
+                    // a trait method taking `self` by value is probed before the inherent `&self`
+                    // methods of `Option` / integers that the translation maps
+                    self.problem(s.span(), format!("`trait {}` in a front-end file (none today; its methods could be probed before the inherent ones the translator maps)", s.ident));
+                }
                 if in_fn {
                     self.problem(s.span(), "`trait` inside a function body".into());
                 }
@@ -737,8 +895,8 @@ impl<'a, 'ast> Visit<'ast> for Pre<'a> {
                     }
                     if let Some(id) = &m.ident {
                         // macros have their own namespace: only the std macros with a fixed meaning
-                        if RESERVED.contains(&id.to_string().as_str()) {
-                            self.defines(id.span(), &id.to_string(), "macro");
+                        if RESERVED_MACROS.contains(&id.to_string().as_str()) {
+                            self.problem(id.span(), format!("macro `{}` redefines a macro of the std prelude", id));
                         }
                     }
                     if in_fn {
@@ -816,9 +974,18 @@ impl<'a, 'ast> Visit<'ast> for Pre<'a> {
     }
 
     fn visit_macro(&mut self, m: &'ast syn::Macro) {
-        let n = m.path.to_token_stream().to_string();
+        let n = macro_name(m);
         if n.starts_with("include") {
             self.problem(m.span(), format!("`{}!`: text from another file is not checked", n));
+        }
+        if n == "asm" || n == "global_asm" || n == "llvm_asm" {
+            self.problem(m.span(), format!("`{}!`: assembly is not read", n));
+        }
+        // C-MACROTOK
+        let mut found = vec![];
+        scan_macro_tokens(m.tokens.clone(), m.path.is_ident("macro_rules"), &mut found);
+        if let Some(f) = found.first() {
+            self.problem(m.span(), format!("`{}!`: {}", n, f));
         }
         syn::visit::visit_macro(self, m);
     }
@@ -900,7 +1067,7 @@ fn duplicates(fname: &str, file: &syn::File, problems: &mut Vec<String>) {
                 }
             }
             I::Use(u) => {
-                let ctx = format!("use:{}", nospace(&u.tree.to_token_stream().to_string()));
+                let ctx = format!("use:{}", text(&u.tree));
                 let ok = cfgd(&u.attrs, &ctx);
                 let mut l = vec![];
                 use_leaves(&u.tree, "", &mut l);
@@ -913,8 +1080,8 @@ fn duplicates(fname: &str, file: &syn::File, problems: &mut Vec<String>) {
                 }
             }
             I::Impl(im) => {
-                let tr = im.trait_.as_ref().map(|(_, p, _)| nospace(&p.to_token_stream().to_string())).unwrap_or_default();
-                let ty = nospace(&im.self_ty.to_token_stream().to_string());
+                let tr = im.trait_.as_ref().map(|(_, p, _)| text(&p)).unwrap_or_default();
+                let ty = text(&im.self_ty);
                 *impls.entry((tr.clone(), ty.clone())).or_insert(0) += 1;
                 for ii in &im.items {
                     let n = match ii {
@@ -973,7 +1140,21 @@ pub fn check_file(fname: &str, file: &syn::File, known: &Known) -> Vec<String> {
 
 /// `lenient` = Some(target function names): see `Pre::lenient`
 pub fn check_file_mode(fname: &str, file: &syn::File, known: &Known, lenient: Option<&[&str]>) -> Vec<String> {
+    let mut local_types = LocalTypes(HashSet::new());
+    let mut target_calls = Calls(HashSet::new());
+    if let Some(ts) = lenient {
+        local_types.visit_file(file);
+        for it in &file.items {
+            if let syn::Item::Fn(f) = it {
+                if ts.contains(&f.sig.ident.to_string().as_str()) {
+                    target_calls.visit_item_fn(f);
+                }
+            }
+        }
+    }
     let mut p = Pre {
+        local_types: local_types.0,
+        target_calls: target_calls.0,
         fname,
         known,
         lenient,
@@ -988,7 +1169,99 @@ pub fn check_file_mode(fname: &str, file: &syn::File, known: &Known, lenient: Op
     p.visit_file(file);
     let mut problems = p.problems;
     duplicates(fname, file, &mut problems);
+    raw_idents(file.to_token_stream(), &mut problems);
+    if lenient.is_none() {
+        // C-USE, the other direction: the imports the translation relies on (`ptr::write` is
+        // core's because of `use core::{.., ptr, ..}`) must be PRESENT - without the import the
+        // path would resolve to a dependency crate of that name
+        let mut uses = AllUses(vec![]);
+        uses.visit_file(file);
+        for (f, path) in USE_WHITELIST {
+            if *f == fname && !uses.0.iter().any(|p| p == path) {
+                problems.push(format!("the import `{}` of today is missing (the names it brings in would resolve to something else)", path));
+            }
+        }
+    }
+    // C-DERIVE
+    for (f, name, want) in STRUCT_ATTRS {
+        if *f != fname {
+            continue;
+        }
+        for it in &file.items {
+            if let syn::Item::Struct(st) = it {
+                if st.ident == name {
+                    let got: Vec<String> = st.attrs.iter().filter(|a| attr_name(a) != "doc").map(attr_text).collect();
+                    let want: Vec<String> = want.iter().map(|w| canon::<syn::Meta>(w)).collect();
+                    if got != want {
+                        problems.push(format!("the attributes of `struct {}` are {:?}, no longer today's {:?} (the derives are what `==`, `clone`, `default` mean)", name, got, want));
+                    }
+                }
+            }
+        }
+    }
     problems
+}
+
+struct AllUses(Vec<String>);
+
+impl<'ast> Visit<'ast> for AllUses {
+    fn visit_item_use(&mut self, u: &'ast syn::ItemUse) {
+        let mut leaves = vec![];
+        use_leaves(&u.tree, "", &mut leaves);
+        let lead = if u.leading_colon.is_some() { "::" } else { "" };
+        for l in leaves {
+            if !l.renamed {
+                self.0.push(format!("{}{}", lead, l.path));
+            }
+        }
+    }
+}
+
+/// table.rs re-exports the tables and nothing else: an item of its own would shadow a glob
+/// re-export (`pub const SMALL_INT_POW10` beats `pub use crate::table_small::*`), and the pinned
+/// primitives would read another table although their tokens are unchanged
+pub fn check_table_rs(file: &syn::File) -> Vec<String> {
+    const ITEMS: &[&str] = &[
+        "#[cfg(feature = \"compact\")] pub use crate::table_bellerophon::*;",
+        "#[cfg(not(feature = \"compact\"))] pub use crate::table_lemire::*;",
+        "#[cfg(not(feature = \"compact\"))] pub use crate::table_small::*;",
+    ];
+    let got: Vec<String> = file.items.iter().map(text).collect();
+    let want: Vec<String> = ITEMS.iter().map(|i| canon::<syn::Item>(i)).collect();
+    let mut problems = vec![];
+    for g in &got {
+        if !want.contains(g) {
+            problems.push(format!("table.rs: the item `{}` is not one of today's three `pub use` (it could shadow a re-exported table)", g.chars().take(120).collect::<String>()));
+        }
+    }
+    for w in &want {
+        if got.iter().filter(|g| *g == w).count() != 1 {
+            problems.push(format!("table.rs: `{}` does not occur exactly once", w));
+        }
+    }
+    for a in &file.attrs {
+        if attr_name(a) != "doc" {
+            problems.push(format!("table.rs: file attribute `#[{}]`", attr_text(a)));
+        }
+    }
+    problems
+}
+
+/// C-RAWID: `r#Some` IS the identifier `Some` for rustc, but not for any comparison by spelling: no
+/// raw identifier anywhere in a file (items, bodies, attributes, macro tokens)
+fn raw_idents(ts: proc_macro2::TokenStream, problems: &mut Vec<String>) {
+    for t in ts {
+        match t {
+            proc_macro2::TokenTree::Ident(i) => {
+                if i.to_string().starts_with("r#") {
+                    let lc = i.span().start();
+                    problems.push(format!("line {}:{}: raw identifier `{}` (names are compared by their spelling)", lc.line, lc.column + 1, i));
+                }
+            }
+            proc_macro2::TokenTree::Group(g) => raw_idents(g.stream(), problems),
+            _ => {}
+        }
+    }
 }
 
 /// lib.rs: the files that are read are the modules of their name: one plain `mod x;` each, without
@@ -1018,6 +1291,28 @@ pub fn check_modules(lib: &syn::File, modules: &[&str]) -> Vec<String> {
 /// in these modules every impl block, every `type` alias and every macro must be one of these.
 const UNREAD_ITEMS: &[(&str, &str)] = &[("fpu.rs", "impl Drop for FPUControlWord"), ("libm.rs", "macro i")];
 
+/// the attributes (doc comments excepted) of the modules that are not read, as they are today
+const UNREAD_ATTRS: &[(&str, &str)] = &[
+    ("fpu.rs", "cfg(feature = \"nightly\")"),
+    ("fpu.rs", "cfg(all(target_arch = \"x86\", not(target_feature = \"sse2\")))"),
+    ("fpu.rs", "cfg(any(not(target_arch = \"x86\"), target_feature = \"sse2\"))"),
+    ("libm.rs", "cfg(all(not(feature = \"std\"), feature = \"compact\"))"),
+    ("libm.rs", "cfg(not(target_feature = \"sse\"))"),
+    ("libm.rs", "cfg(not(target_feature = \"sse2\"))"),
+    ("libm.rs", "cfg(target_feature = \"sse\")"),
+    ("libm.rs", "cfg(target_feature = \"sse2\")"),
+    ("libm.rs", "cfg(target_arch = \"x86\")"),
+    ("libm.rs", "cfg(target_arch = \"x86_64\")"),
+    ("libm.rs", "inline"),
+    ("table_bellerophon.rs", "cfg(feature = \"compact\")"),
+];
+
+/// the `asm!` invocations of today (fpu.rs, only compiled with feature nightly): token text
+const UNREAD_ASM: &[(&str, &str)] = &[
+    ("fpu.rs", "asm ! (\"fldcw word ptr [{}]\" , in (reg) & cw , options (nostack) ,)"),
+    ("fpu.rs", "asm ! (\"fnstcw word ptr [{}]\" , in (reg) & mut cw , options (nostack) ,)"),
+];
+
 /// the modules lib.rs declares today
 pub const KNOWN_MODULES: &[&str] = &[
     "bellerophon", "bigint", "extended_float", "fpu", "heapvec", "lemire", "libm", "mask", "num", "number", "parse", "rounding", "slow",
@@ -1040,8 +1335,8 @@ impl<'a> Unread<'a> {
 
 impl<'a, 'ast> Visit<'ast> for Unread<'a> {
     fn visit_item_impl(&mut self, im: &'ast syn::ItemImpl) {
-        let tr = im.trait_.as_ref().map(|(_, p, _)| nospace(&p.to_token_stream().to_string())).unwrap_or_default();
-        let ty = nospace(&im.self_ty.to_token_stream().to_string());
+        let tr = im.trait_.as_ref().map(|(_, p, _)| text(&p)).unwrap_or_default();
+        let ty = text(&im.self_ty);
         let what = if tr.is_empty() { format!("impl {}", ty) } else { format!("impl {} for {}", tr, ty) };
         self.expect(im.span(), what);
         syn::visit::visit_item_impl(self, im);
@@ -1052,8 +1347,12 @@ impl<'a, 'ast> Visit<'ast> for Unread<'a> {
     fn visit_item_macro(&mut self, m: &'ast syn::ItemMacro) {
         match (&m.ident, m.mac.path.is_ident("macro_rules")) {
             (Some(id), true) => self.expect(m.span(), format!("macro {}", id)),
-            _ => self.expect(m.span(), format!("{}! in item position", nospace(&m.mac.path.to_token_stream().to_string()))),
+            _ => self.expect(m.span(), format!("{}! in item position", text(&m.mac.path))),
         }
+        for at in &m.attrs {
+            self.visit_attribute(at);
+        }
+        self.visit_macro(&m.mac);
     }
     fn visit_item_mod(&mut self, m: &'ast syn::ItemMod) {
         if m.content.is_none() {
@@ -1069,16 +1368,45 @@ impl<'a, 'ast> Visit<'ast> for Unread<'a> {
         self.expect(m.span(), "macro in trait-item position".into());
     }
     fn visit_attribute(&mut self, a: &'ast syn::Attribute) {
+        // C-ATTR for the modules that are not read: `#[used]`, `#[link_section]`, `#[no_mangle]`,
+        // `#[export_name]`, `#[global_allocator]`, `#[path]`, `#[macro_use]`, .. act on the whole
+        // program: doc comments and, attribute by attribute, today's
         let n = attr_name(a);
-        if n == "path" || n == "macro_use" || n == "macro_export" {
-            let lc = a.span().start();
-            self.problems.push(format!("line {}:{}: attribute `#[{}]`", lc.line, lc.column + 1, attr_text(a)));
+        let t = attr_text(a);
+        if n == "doc" || UNREAD_ATTRS.iter().any(|(f, x)| *f == self.fname && canon::<syn::Meta>(x) == t) {
+            return;
         }
+        let lc = a.span().start();
+        self.problems.push(format!("line {}:{}: attribute `#[{}]` in a module that is not read is not one of today's", lc.line, lc.column + 1, t));
+    }
+    fn visit_item_static(&mut self, i: &'ast syn::ItemStatic) {
+        let lc = i.span().start();
+        self.problems.push(format!("line {}:{}: `static {}` in a module that is not read (none today)", lc.line, lc.column + 1, i.ident));
+        syn::visit::visit_item_static(self, i);
+    }
+    fn visit_item_foreign_mod(&mut self, i: &'ast syn::ItemForeignMod) {
+        let lc = i.span().start();
+        self.problems.push(format!("line {}:{}: `extern` block in a module that is not read (none today)", lc.line, lc.column + 1));
     }
     fn visit_macro(&mut self, m: &'ast syn::Macro) {
-        if m.path.to_token_stream().to_string().starts_with("include") {
-            let lc = m.span().start();
+        let n = macro_name(m);
+        let lc = m.span().start();
+        if n.starts_with("include") {
             self.problems.push(format!("line {}:{}: `include!`", lc.line, lc.column + 1));
+        }
+        if n == "asm" || n == "global_asm" || n == "llvm_asm" {
+            // today's two control-word accesses of fpu.rs (compiled only with feature nightly)
+            let t = text(m);
+            if !UNREAD_ASM.iter().any(|(f, x)| *f == self.fname && *x == t) {
+                self.problems.push(format!("line {}:{}: `{}` is not one of today's `asm!` invocations", lc.line, lc.column + 1, t));
+            }
+        } else {
+            // C-MACROTOK
+            let mut found = vec![];
+            scan_macro_tokens(m.tokens.clone(), m.path.is_ident("macro_rules"), &mut found);
+            if let Some(f) = found.first() {
+                self.problems.push(format!("line {}:{}: `{}!`: {}", lc.line, lc.column + 1, n, f));
+            }
         }
         syn::visit::visit_macro(self, m);
     }
@@ -1092,6 +1420,7 @@ pub fn check_unread(fname: &str, file: &syn::File) -> Vec<String> {
         u.problems.push("fpu.rs is no longer gated by `#![cfg(feature = \"nightly\")]`".into());
     }
     u.visit_file(file);
+    raw_idents(file.to_token_stream(), &mut u.problems);
     u.problems
 }
 
@@ -1156,18 +1485,19 @@ pub fn check_expansion_expr(x: &syn::Expr, value_names: &HashSet<String>) -> Res
 // ---------------------------------------------------------------------- pinned primitives (C-PRIM)
 
 /// the text of a function that is pinned: its attributes (doc comments excepted), signature and
-/// body, as `quote!` prints them, without white space
+/// body, as `quote!` prints them (`text`)
 pub fn pin_text(attrs: &[syn::Attribute], vis: &syn::Visibility, sig: &syn::Signature, block: &syn::Block) -> String {
-    let mut s = String::new();
+    let mut parts: Vec<String> = vec![];
     for a in attrs {
         if attr_name(a) != "doc" {
-            s.push_str(&nospace(&a.to_token_stream().to_string()));
+            parts.push(text(a));
         }
     }
-    s.push_str(&nospace(&vis.to_token_stream().to_string()));
-    s.push_str(&nospace(&sig.to_token_stream().to_string()));
-    s.push_str(&nospace(&block.to_token_stream().to_string()));
-    s
+    parts.push(text(vis));
+    parts.push(text(sig));
+    parts.push(text(block));
+    parts.retain(|p| !p.is_empty());
+    parts.join(" ")
 }
 
 /// every function of `file` that may be pinned: (owner, name, text); owner = "" for a free function,
@@ -1178,9 +1508,9 @@ pub fn pinnable(file: &syn::File) -> Vec<(String, String, String)> {
         match it {
             syn::Item::Fn(f) => v.push((String::new(), f.sig.ident.to_string(), pin_text(&f.attrs, &f.vis, &f.sig, &f.block))),
             syn::Item::Impl(im) => {
-                let ty = nospace(&im.self_ty.to_token_stream().to_string());
+                let ty = text(&im.self_ty);
                 let owner = match &im.trait_ {
-                    Some((_, p, _)) => format!("{} for {}", nospace(&p.to_token_stream().to_string()), ty),
+                    Some((_, p, _)) => format!("{} for {}", text(&p), ty),
                     None => ty,
                 };
                 for ii in &im.items {
@@ -1189,7 +1519,7 @@ pub fn pinnable(file: &syn::File) -> Vec<(String, String, String)> {
                     }
                 }
             }
-            syn::Item::Enum(e) => v.push(("enum".into(), e.ident.to_string(), nospace(&e.to_token_stream().to_string()))),
+            syn::Item::Enum(e) => v.push(("enum".into(), e.ident.to_string(), text(&e))),
             _ => {}
         }
     }
@@ -1254,8 +1584,8 @@ impl<'ast> Visit<'ast> for Dropped {
     fn visit_expr_if(&mut self, e: &'ast syn::ExprIf) {
         match crate::ctrl::static_cond(&e.cond) {
             // `if LIMB_BITS == 32 { A } else { B }`: A is dropped
-            Some(false) => self.add("if", nospace(&e.then_branch.to_token_stream().to_string())),
-            Some(true) => self.add("else", e.else_branch.as_ref().map(|(_, x)| nospace(&x.to_token_stream().to_string())).unwrap_or_default()),
+            Some(false) => self.add("if", text(&e.then_branch)),
+            Some(true) => self.add("else", e.else_branch.as_ref().map(|(_, x)| text(&x)).unwrap_or_default()),
             None => {}
         }
         syn::visit::visit_expr_if(self, e);
@@ -1263,7 +1593,7 @@ impl<'ast> Visit<'ast> for Dropped {
     fn visit_arm(&mut self, a: &'ast syn::Arm) {
         if let Some((_, g)) = &a.guard {
             if crate::ctrl::static_cond(g) == Some(false) {
-                self.add("arm", nospace(&a.to_token_stream().to_string()));
+                self.add("arm", text(&a));
             }
         }
         syn::visit::visit_arm(self, a);
@@ -1285,12 +1615,12 @@ pub fn dropped32(file: &syn::File) -> Vec<(String, String)> {
                 out.push((format!("fn:{}", f.sig.ident), pin_text(&f.attrs, &f.vis, &f.sig, &f.block)));
             }
             syn::Item::Type(t) if t.attrs.iter().any(|a| attr_text(a) == NL64) => {
-                out.push((format!("cfg32:type {}", t.ident), nospace(&t.to_token_stream().to_string())));
+                out.push((format!("cfg32:type {}", t.ident), text(&t)));
             }
             syn::Item::Const(c) if c.attrs.iter().any(|a| attr_text(a) == NL64) => {
-                let text: String = c.attrs.iter().filter(|a| attr_name(a) != "doc").map(|a| nospace(&a.to_token_stream().to_string())).collect();
+                let at: Vec<String> = c.attrs.iter().filter(|a| attr_name(a) != "doc").map(|a| text(&a)).collect();
                 let (ty, ex) = (&c.ty, &c.expr);
-                out.push((format!("cfg32:const {}", c.ident), format!("{}const{}:{}={};", text, c.ident, nospace(&ty.to_token_stream().to_string()), nospace(&ex.to_token_stream().to_string()))));
+                out.push((format!("cfg32:const {}", c.ident), format!("{} const {} : {} = {} ;", at.join(" "), c.ident, text(&ty), text(&ex))));
             }
             syn::Item::Macro(m) if m.ident.as_ref().map(|i| i == "hi").unwrap_or(false) => {
                 // the rules `(@3 ..) => {..}` and `(@nonzero3 ..) => {..}`
@@ -1298,10 +1628,10 @@ pub fn dropped32(file: &syn::File) -> Vec<(String, String)> {
                 let mut i = 0;
                 while i + 3 < toks.len() {
                     if let (proc_macro2::TokenTree::Group(a), proc_macro2::TokenTree::Group(b)) = (&toks[i], &toks[i + 3]) {
-                        let head = nospace(&a.stream().to_string());
-                        if head.starts_with("@3") || head.starts_with("@nonzero3") {
-                            let key = if head.starts_with("@3") { "@3" } else { "@nonzero3" };
-                            out.push((format!("macro hi:{}", key), format!("({})=>{{{}}}", head, nospace(&b.stream().to_string()))));
+                        let head = a.stream().to_string();
+                        if head.starts_with("@ 3 ") || head.starts_with("@ nonzero3 ") {
+                            let key = if head.starts_with("@ 3 ") { "@3" } else { "@nonzero3" };
+                            out.push((format!("macro hi:{}", key), format!("({}) => {{ {} }}", head, b.stream())));
                         }
                     }
                     i += 4;
